@@ -5,7 +5,7 @@ CONSTANTS
   WithPlans = FALSE
   BlockBudget = 16
   MinDecls = 14
-  MaxNest = 5
+  MaxNest = 8
   TypesOnly = FALSE
   CallsOnly = TRUE
   Rich = TRUE
